@@ -59,6 +59,25 @@ def _normalize_def_title(raw_title: str) -> str:
     return _normalize_title_quotes(title)
 
 
+def _format_link_dest(dest: str) -> str:
+    """
+    Spell a link destination so that it reads back as the same destination: one that is empty,
+    contains whitespace or has unbalanced parentheses needs the `<...>` form.
+    """
+    depth = 0
+    balanced = True
+    for c in re.sub(r"\\.", "", dest):
+        if c == "(":
+            depth += 1
+        elif c == ")":
+            depth -= 1
+            if depth < 0:
+                balanced = False
+    if dest == "" or re.search(r"\s", dest) or not balanced or depth != 0 or dest.startswith("<"):
+        return f"<{dest}>"
+    return dest
+
+
 def _min_fence_length(code_content: str, fence_char: str = "`") -> int:
     """
     Calculate the minimum fence length needed for code content.
@@ -633,7 +652,11 @@ class MarkdownNormalizer(Renderer):
             (
                 k
                 for k, v in self.root_node.link_ref_defs.items()
-                if (v[0], _normalize_def_title(v[1]) if v[1] else None) == (element.dest, link_title)
+                if (
+                    v[0][1:-1] if v[0].startswith("<") and v[0].endswith(">") else v[0],
+                    _normalize_def_title(v[1]) if v[1] else None,
+                )
+                == (element.dest, link_title)
             ),
             None,
         )
@@ -642,7 +665,7 @@ class MarkdownNormalizer(Renderer):
                 return f"[{label}]"
             return f"[{link_text}][{label}]"
         title = f" {link_title}" if link_title is not None else ""
-        return f"[{link_text}]({element.dest}{title})"
+        return f"[{link_text}]({_format_link_dest(element.dest)}{title})"
 
     def render_auto_link(self, element: inline.AutoLink) -> str:
         return f"<{element.dest}>"
@@ -650,7 +673,7 @@ class MarkdownNormalizer(Renderer):
     def render_image(self, element: inline.Image) -> str:
         template = "![{}]({}{})"
         title = f" {_normalize_title_quotes(element.title)}" if element.title else ""
-        return template.format(self.render_children(element), element.dest, title)
+        return template.format(self.render_children(element), _format_link_dest(element.dest), title)
 
     def render_literal(self, element: inline.Literal) -> str:
         """
